@@ -3,9 +3,11 @@
 (patch.diff, the demonstration, meta.json extended with what was run here and which check caught it)."""
 import os, json, glob, shutil, re, sys
 V = os.path.dirname(os.path.dirname(os.path.abspath(__file__)))
-for d in sorted(glob.glob('/tmp/seed-C*/out/m*')):
-    pid = re.search(r'seed-(C\d+)', d).group(1)
-    n = os.path.basename(d)
+BASE = os.environ.get('SEEDBASE', '/tmp/seed')          # SEEDBASE=/tmp/seed3 SEEDTAG=b3- for the third batch
+TAG = os.environ.get('SEEDTAG', '')
+for d in sorted(glob.glob(BASE + '-C*/out/m*')):
+    pid = re.search(r'-(C\d+)/out', d).group(1)
+    n = TAG + os.path.basename(d)
     logs = sorted(glob.glob(d + '/check_*.log'))
     if not logs or not os.path.exists(d + '/meta.json'):
         continue
@@ -28,7 +30,8 @@ for d in sorted(glob.glob('/tmp/seed-C*/out/m*')):
         checks[c] = {'caught': bool(viol), 'violation_lines': [re.sub(r'replay=\S+/', 'replay=', v) for v in viol][:4], 'kinds': kinds[:4], 'summary': last}
     meta['verified_here'] = {
         'demo_passes_on_clean_tree': demo_clean, 'demo_fails_with_patch': demo_patched, 'existing_suite_passes_with_patch': suite_ok,
-        'commands': ['tools/seedtest.sh %s %s quick  (applies the patch on a scratch worktree at /repo HEAD, go build, demo, go test ./..., VERIF_REPO=<worktree> ./check %s)' % (pid, n[1:], pid)],
+        'commands': ['tools/seedtest.sh %s %s quick  (applies the patch on a scratch worktree at /repo HEAD, go build, demo, go test ./..., VERIF_REPO=<worktree> ./check %s)' % (pid, n[-1:], pid)],
+        'repo_head_at_run': os.popen('git -C /repo rev-parse --short HEAD').read().strip(),
         'checks': checks,
     }
     out = os.path.join(V, 'seeded', '%s-%s' % (pid, n))
